@@ -15,7 +15,7 @@ from hypothesis import strategies as st
 
 from props.c02 import measure
 from vlib.core import SubCheck, Violation
-from vlib.grids import GridRejected, build_grid, chain_model_spec, grid_spec
+from vlib.grids import GridRejected, _f, build_grid, chain_model_spec, grid_spec
 from vlib.models import activity, branch_of, build_copula_model, build_model, quad_hints
 from vlib.oracles import nu_integral
 
@@ -491,6 +491,98 @@ def classify_copula(case):
     return [f"d={d}", case["copula"]["type"], case["grid"]["type"]], True
 
 
+# ------------------------------------------------------------------------ copula coupling, infinite variation
+@st.composite
+def strat_copula_iv(draw, tier):
+    """two CGMY margins of infinite variation (the diffusion matrix that stands in for the small jumps depends on the
+    step) under a Clayton / independent copula, a tiny level-0 grid, two levels; the hierarchy is built up front or a
+    level-l path is simulated before the next level is added"""
+    def margin():
+        return {"family": "cgmy", "params": {"c": draw(_f(0.02, 0.5)), "g": draw(_f(4.0, 30.0)), "m": draw(_f(4.0, 30.0)),
+                                             "y": draw(st.sampled_from([1.1, 1.3, 1.5, 1.7]))},
+                "exp": {"spot": 100.0, "r": 0.02, "d": 0.0}}
+    cop = draw(st.sampled_from([{"type": "clayton", "theta": 0.7, "eta": 0.3}, {"type": "clayton", "theta": 3.0, "eta": 0.8},
+                                {"type": "independent"}]))
+    return {"margins": [margin(), margin()], "copula": cop, "n": 4,
+            "h_rel": draw(_f(0.3, 1.5)), "simulate_between": draw(st.booleans()), "levels": draw(st.sampled_from([1, 1, 2])),
+            "method": draw(st.sampled_from(["INVERSION", "BINARYSEARCHTREEADAPTED"]))}
+
+
+def body_copula_iv(case):
+    from rpylib.distribution.sampling import SamplingMethod
+    from rpylib.grid.spatial import CTMCUniformGrid
+    from rpylib.process.coupling.couplinglevycopula import CouplingProcessLevyCopula
+    from rpylib.process.markovchain.markovchainlevycopula import MarkovChainLevyCopula
+    from vlib.grids import model_scale
+
+    np.random.seed(7)
+    out = []
+    d = 2
+    model = build_copula_model({"margins": case["margins"], "copula": case["copula"]})
+    h = float(f"{case['h_rel'] * min(model_scale(m) for m in case['margins']):.5g}")
+    grid = CTMCUniformGrid.create_from_fixed_nb_of_points(h=h, nb_of_points=case["n"], dimension=d)
+    method = SamplingMethod[case["method"]]
+    product = _product_with_dates({"T": 0.5, "asian": True})
+    tg = np.asarray(product.times_grid(), dtype=float)
+    nb = len(tg) - 1
+    tag = f"C03/copula-infinite-variation/{case['copula']['type']}/{'path-between-levels' if case['simulate_between'] else 'levels-built-up-front'}"
+    detail = f"case={case}"
+    cp = CouplingProcessLevyCopula(levy_copula_model=model, grid=grid, method=method)
+    cp.initialisation(product)
+    cp.pre_computation(1, product)
+    pms = [_PM(cp.fine_process.deterministic_path)]
+    for level in range(1, int(case.get("levels", 2)) + 1):
+        # the level-(l-1) chain built independently, on a copy of the grid as it is before the refinement
+        ref_c = MarkovChainLevyCopula(levy_copula_model=model, grid=copy.deepcopy(cp.grid), method=method)
+        ref_c.initialisation(product)
+        diff_c = np.asarray(ref_c._path_simulation.diffusion_matrix, dtype=float)
+        if case["simulate_between"]:
+            cp.pre_computation(1, product)
+            cp.simulate_one_path() if level == 1 else cp.simulate_one_path_with_coupling()
+        cp.next_level(2, pms, product)
+        ref_f = MarkovChainLevyCopula(levy_copula_model=model, grid=copy.deepcopy(cp.grid), method=method)
+        ref_f.initialisation(product)
+        diff_f = np.asarray(ref_f._path_simulation.diffusion_matrix, dtype=float)
+        if not np.all(np.isfinite(diff_c)) or not np.all(np.isfinite(diff_f)):
+            return out + [Violation("INCONCLUSIVE", f"reference diffusion matrix not finite; {detail}")]
+        if np.allclose(diff_c, diff_f, rtol=1e-6, atol=0):
+            return out + [Violation("REJECTED", "the diffusion matrix does not move with the step here")]
+        tol = 1e-9 * float(np.abs(diff_c).max())
+        got_c = np.asarray(cp._diffusion_matrix_2h, dtype=float)
+        got_f = np.asarray(cp._diffusion_matrix_h, dtype=float)
+        if got_c.shape != diff_c.shape or not np.allclose(got_c, diff_c, rtol=1e-9, atol=tol):
+            out.append(Violation(f"{tag}/coarse-diffusion-matrix-is-not-that-of-the-previous-level",
+                                 f"level {level}: coupling holds {got_c.tolist()}, a chain built on the level-{level - 1} "
+                                 f"grid has {diff_c.tolist()} (level-{level} chain: {diff_f.tolist()}); {detail}"))
+            return out
+        if got_f.shape != diff_f.shape or not np.allclose(got_f, diff_f, rtol=1e-9, atol=tol):
+            out.append(Violation(f"{tag}/fine-diffusion-matrix-is-not-that-of-the-level",
+                                 f"level {level}: {got_f.tolist()} vs {diff_f.tolist()}; {detail}"))
+            return out
+        # one coupled sample without jumps: both components driven by the pre-drawn Brownian row of the sample
+        fine = cp.fine_process
+        row = np.random.RandomState(11 + level).normal(size=(d, nb))
+        fine._path_simulation._brownian_increments = deque([row.tolist()])
+        fine._path_simulation._poisson_rv = deque([[0] * nb])
+        path = cp.simulate_one_path_with_coupling()
+        got = np.asarray(path.diffusion_path, dtype=float)
+        bm = np.cumsum(np.sqrt(np.diff(tg)) * row, axis=1)
+        exp = np.zeros((2, d, nb + 1))
+        exp[0][:, 1:] = diff_f @ bm
+        exp[1][:, 1:] = diff_c @ bm
+        alt = np.transpose(exp, (0, 2, 1))
+        if not any(got.shape == e.shape and np.allclose(got, e, rtol=1e-9, atol=1e-15) for e in (exp, alt)):
+            out.append(Violation(f"{tag}/diffusion-parts-are-not-the-two-levels-matrices-times-the-shared-increments",
+                                 f"level {level}: {got.tolist()} vs {exp.tolist()}; {detail}"))
+            return out
+    return out
+
+
+def classify_copula_iv(case):
+    return [case["copula"]["type"], "path-between-levels" if case["simulate_between"] else "levels-built-up-front",
+            case["method"]], True
+
+
 # ------------------------------------------------------------------------------------ SDE coupling drifts
 @st.composite
 def strat_sde(draw, tier):
@@ -580,6 +672,13 @@ SUBCHECKS = [
                   "coarse cell given the fine cell, telescoping identity vs a fresh level-0 chain, coarse "
                   "diffusion matrix and drift; rows labelled by parity (all-even / all-odd / mixed)",
              strategy=strat_copula, budget={"quick": 48, "thorough": 640}, shards={"quick": 16, "thorough": 16}),
+    SubCheck("coupling-copula-infinite-variation", body_copula_iv, classify_copula_iv,
+             rule="2-d copula couplings with infinite-variation margins (step-dependent diffusion matrix), levels 1..2, "
+                  "hierarchy built up front or with a path simulated between the levels: coarse / fine diffusion matrix "
+                  "vs chains built independently on copies of the level grids; one coupled sample without jumps vs the "
+                  "two matrices times the scripted Brownian row",
+             strategy=strat_copula_iv, budget={"quick": 32, "thorough": 320}, shards={"quick": 16, "thorough": 16},
+             essential_labels=("levels-built-up-front", "path-between-levels")),
     SubCheck("coupling-sde-drifts", body_sde, classify_sde,
              rule="CouplingSDE over a 1-d driver, levels 1..2: mc_drift_2h = drift of a fresh level-(l-1) chain, "
                   "mc_drift_h = level-l chain drift, epsilon = h^beta, deterministic path = x0 for both components",
